@@ -51,7 +51,7 @@ fn check_no_zero_sized_cycle_inner(
 		if let RegularType::Record(_) = &schema.nodes[field.type_.idx].type_ {
 			if visited_nodes[field.type_.idx] {
 				return Err(UnconditionalCycle {});
-			} else {
+			} else if !checked_nodes[field.type_.idx] {
 				check_no_zero_sized_cycle_inner(
 					schema,
 					field.type_.idx,
